@@ -154,9 +154,9 @@ func Configs(n *e1.Node) []string {
 			"blk \"l\" {\n  # lead\n  a   =   " + e1.Render(n, e1.Layout{Mode: 4}) + " # trailing\n      bb = [\n1,\n  2]\n}\n"}
 	}
 	var out []string
-	for _, mode := range []int{0, 1, 3, 4} {
+	for _, mode := range []int{0, 1, 3, 4, 5, 6, 7} {
 		x := e1.Render(n, e1.Layout{Mode: mode})
-		if strings.Contains(x, "\n") {
+		if strings.Contains(x, "\n") && mode != 5 && mode != 6 {
 			continue
 		}
 		out = append(out, "a = "+x+"\n")
